@@ -16,6 +16,17 @@ chi(st_P_j) != chi(st_V_j) for some j, or the two sides squeeze a different numb
 unsat <=> same items in the same order before every challenge. A sat model names the first diverging
 challenge; replay = the same shape over Fq + KZG(unsafe_setup) + Blake2b with the real create_proof /
 prepare / guard.verify: the verifier must reject its own honest proof (MockProver accepts the witness).
+
+C01-c  "the honest proof verifies, modulo the commitment scheme" (permutation-free, lookup-free shapes):
+on the same runs, every query the real verifier hands to the commitment scheme — (commitment, point, claimed
+evaluation), including the chopped quotient query whose evaluation is expected_h_eval computed from the proof's
+evaluations — is compared with the vector the real prover committed under that handle: the claimed evaluation
+must equal the value at the point of the committed polynomial (Lagrange / monomial basis by definition; quotient
+= sum_i h_i(x) x^((n-1)i)). This is a polynomial identity in the witness, the blinding scalars, the public inputs
+and x, decided by normalisation + ground residual (vf/symf.py). It contains numerator == h*(X^n-1) at x, i.e.
+prover-side evaluate_h / quotient splitting / FFTs against verifier-side evaluate_identities. Twin: the same
+shape with a constraint the free witness does not satisfy must give a differing quotient query.
+Shapes with a permutation argument are outside (z is built with inverses of witness-dependent terms).
 """
 import json, time
 from concurrent.futures import ThreadPoolExecutor
@@ -224,6 +235,83 @@ def check_config(run, tn, np_, nbc, plain):
     run.log(f"{name}: {ob.status}")
 
 
+E2E_SHAPES = {
+    # k=3: one multiplicative gate, rows 0..1
+    "gate-k3": dict(k=3, np=1, nbc=0, lens=[0], shape={"adv": [0, 0, 0], "nfix": 1, "ninst": 0, "chal": [],
+                    "gates": [{"sel": "mul", "cons": [{"prods": [[_a(0), _a(1)], [["f", 0, 0]]], "out": _a(2, -1)}]}], "eq": [], "copies": []}),
+    # trash argument (additive selector) with two constraints
+    "trash-k4": dict(k=4, np=1, nbc=0, lens=[0], shape={"adv": [0, 0, 0], "nfix": 1, "ninst": 0, "chal": [],
+                     "gates": [{"sel": "add", "cons": [{"prods": [[_a(0), _a(1)], [["f", 0, 0]]], "out": _a(2, -1)},
+                                                       {"prods": [[_a(1, 1), _a(1)]], "out": _a(0, 1)}]}], "eq": [], "copies": []}),
+    # two proofs, a committed instance column queried at rotations 0 and 1, a plain instance column
+    "2proofs-instances-k4": dict(k=4, np=2, nbc=1, lens=[3, 3], shape={"adv": [0, 0, 0], "nfix": 1, "ninst": 2, "chal": [],
+                                 "gates": [{"sel": "mul", "cons": [{"prods": [[_a(0), _a(1)], [["i", 0, 0], ["i", 0, 1]], [["i", 1, 0], ["f", 0, 0]]],
+                                                                    "out": _a(2, -1)}]}], "eq": [], "copies": []}),
+    # two phases, a challenge, an unblinded column, a degree-4 gate with rotations
+    "2phase-challenge-k4": dict(k=4, np=1, nbc=0, lens=[3], shape={"adv": [0, 0, 1, 1], "unbl": [1], "nfix": 1, "ninst": 1, "chal": [0],
+                                "gates": [{"sel": "cmul", "cons": [{"prods": [[["c", 0], _a(0), _a(1, -1)], [["i", 0, 1]]], "out": _a(2)},
+                                                                   {"prods": [[_a(2), _a(0, 1)]], "out": _a(3, 1)}]}], "eq": [], "copies": []}),
+}
+
+
+def e2e_pairs(d):
+    pr = symf.ProverRun(d)
+    pairs, bad = [], []
+    for q in d["guard"]:
+        real, spec = pr.nf(q["eval"]), pr.spec_eval(q)
+        if real != spec:
+            bad.append(q["label"])
+        for m in set(real) | set(spec):
+            pairs.append((real.get(m, 0), spec.get(m, 0)))
+    return pairs, bad, len(pr.ring.atoms)
+
+
+def check_e2e(run, name, m):
+    ob = core.Ob(f"C01/S/e2e/{name}/openings-consistent", ENGINE,
+                 "every evaluation the real verifier claims (incl. the quotient's expected_h_eval) equals the value of the polynomial "
+                 "the real prover committed, at the query point", functions=FUNCS + [
+                     "proofs/src/plonk/evaluation.rs::Evaluator::evaluate_h", "proofs/src/plonk/mod.rs::evaluate_identities",
+                     "proofs/src/plonk/vanishing/prover.rs::construct", "proofs/src/poly/domain.rs::coeff_to_extended",
+                     "proofs/src/poly/domain.rs::extended_to_coeff", "proofs/src/poly/domain.rs::divide_by_vanishing_poly"],
+                 bound=f"shape {name} k={m['k']} num_proofs={m['np']} committed={m['nbc']} lens={m['lens']}; all witnesses satisfying by construction, "
+                       "all blinding scalars, public inputs, x", key="honest-proof-openings")
+    run.add(ob)
+    try:
+        d = symf.sx("prover", shape=m["shape"], k=m["k"], np=m["np"], nbc=m["nbc"], lens=m["lens"], nodes=1, coms=1, guard=1)
+        if "guard" not in d:
+            raise RuntimeError(d.get("prepare_error") or d.get("create_proof_error"))
+        pairs, bad, atoms = e2e_pairs(d)
+        # twin: break the first constraint (drop its output cell): the free witness no longer satisfies it
+        tw_shape = json.loads(json.dumps(m["shape"]))
+        tw_shape["gates"][0]["cons"][0]["out"] = None
+        td = symf.sx("prover", shape=tw_shape, k=m["k"], np=m["np"], nbc=m["nbc"], lens=m["lens"], nodes=1, coms=1, guard=1)
+        tpairs, tbad, _ = e2e_pairs(td)
+    except Exception as ex:
+        ob.set(INCONCLUSIVE, f"{ex!r}"[:300])
+        return
+    if atoms:
+        ob.set(INCONCLUSIVE, f"{atoms} opaque inverse atoms (shape outside the fragment)")
+        return
+    r = solvers.solve(symf.residual_smt(pairs), timeout=120)
+    tw = solvers.solve(symf.residual_smt(tpairs), timeout=120)
+    ob.queries += 2
+    ob.vacuity = tw.status == "sat" and "custom:vanishing" in tbad
+    member = dict(m)
+    if r.status == "unsat" and not bad and ob.vacuity:
+        ob.set(HOLDS, f"{len(d['guard'])} queries, {len(pairs)} monomials; twin (unsatisfied constraint) differs on {tbad}",
+               solver=r.solver, solver_s=r.time_s + tw.time_s)
+    elif r.status == "sat" or bad:
+        payload = {"kind": "e2e", "member": member, "queries": bad}
+        if replay(payload):
+            ob.set(VIOLATION, f"claimed evaluation differs from the committed polynomial for {bad}", solver=r.solver,
+                   solver_s=r.time_s, replay=run.write_replay(ob, payload))
+        else:
+            ob.set(INCONCLUSIVE, f"mismatch on {bad} did not reproduce")
+    else:
+        ob.set(INCONCLUSIVE, f"solver {r.status}; twin {tw.status} {tbad}")
+    run.log(f"e2e/{name}: {ob.status}")
+
+
 def check(run):
     symf.build(run)
     cfgs = configs()
@@ -232,14 +320,18 @@ def check(run):
     run.bounds.append(f"C01/S: {len(cfgs)} (template, num_proofs, committed, plain) configurations, k=4, lookup-free shapes")
     run.assumptions += ["S: chi (the transcript hash) is injective on absorbed histories",
                         "S: SymCS commitments are interned handles of the committed vectors (equal vectors = equal commitments)"]
-    run.outside += ["C01: lookups (value sorting concretises), MSM/FFT/pairing correctness (C12/C13), quotient splitting, "
-                    "every other reason an honest proof could fail; C01-b (numerator == identities) is not built"]
+    run.outside += ["C01: lookups (value sorting concretises); shapes with a permutation argument in the e2e obligations (z is built with "
+                    "inverses of witness-dependent terms: opaque atoms); MSM/pairing correctness and the KZG opening itself (C12/C14); "
+                    "k > 4; C01-b as a separate hook-based comparison is subsumed by the e2e obligations on their fragment"]
     run.translator_validation.append(
         "S/C01: vacuity twin per configuration (one absorbed item removed on the verifier side must make the query sat); "
         "the F1 counterexample replays on the real stack and the configurations that HOLD are accepted there "
         "(spot-checked by `sx real` in notes/symfield.md)")
+    e2e = E2E_SHAPES if not getattr(run, "only", None) else {k: v for k, v in E2E_SHAPES.items() if run.only in "e2e/" + k}
+    run.bounds.append(f"C01/S e2e: {len(E2E_SHAPES)} permutation-free, lookup-free shapes (k=3,4; gates, trash, 2 phases + challenge, "
+                      "2 proofs with committed+plain instances)")
     with ThreadPoolExecutor(max_workers=4) as ex:
-        futs = [ex.submit(check_config, run, *c) for c in cfgs]
+        futs = [ex.submit(check_config, run, *c) for c in cfgs] + [ex.submit(check_e2e, run, n, m) for n, m in e2e.items()]
         for f in futs:
             try:
                 f.result()
@@ -262,6 +354,15 @@ def replay(payload):
     rejects the honest proof (MockProver must accept the witness)."""
     symf.build()
     m = payload["member"]
+    if payload["kind"] == "e2e":
+        # concrete mode: witness, blinding, public inputs and challenges are constants; the same real prover and
+        # verifier run; compare each claimed evaluation with the committed vector evaluated by definition
+        d = symf.sx("prover", shape=m["shape"], k=m["k"], np=m["np"], nbc=m["nbc"], lens=m["lens"], nodes=1, coms=1, guard=1, vals={})
+        pr = symf.ProverRun(d)
+        bad = [q["label"] for q in d["guard"] if pr.dag.const(q["eval"]) != pr.spec_eval_concrete(q)]
+        rd = symf.sx("real", shape=m["shape"], k=m["k"], np=m["np"], nbc=m["nbc"], lens=m["lens"])
+        print(f"concrete run: claimed evaluation != committed polynomial at the point for {bad}; real stack verdict: {rd.get('verdict')}")
+        return 1 if bad else 0
     d = symf.sx("real", shape=m["shape"], k=m["k"], np=m["np"], nbc=m["nbc"], lens=m["lens"] or [0])
     honest = all(x == "Ok(())" for x in d.get("mock_prover", []))
     print(f"real stack: mock_prover={d.get('mock_prover')} verdict={d.get('verdict')} create_proof_error={d.get('create_proof_error')}")
